@@ -115,6 +115,46 @@ CHECKS["C19"] = dict(
         "2-D add_source shares the code path (fvm2dcart.add_source is textually the same loop), checked with the 2-D machinery.",
    ref="§6 C19")
 
+CHECKS["C03"] = dict(
+   technique="contract-based deductive verification by contract chaining: bc fixed-point clauses (leaf, per condition) -> "
+             "fvm1d.rhs executed symbolically with numflux and namedBC through their contracts -> residual 0; z3",
+   text="Proof for all uniform admissible states (any Mach number), gamma, symbolic ncell (seam cells + generic cell; n=1,2 "
+        "concrete), any strictly increasing mesh: each Euler inlet/outlet condition whose parameters are those of the state "
+        "returns the state (both sides, in its regime); with periodic, same-state dirichlet and every matched inlet x outlet "
+        "pair every face sees (W,W), so by flux consistency the residual of every equation vanishes, for every model and "
+        "reconstruction (quick tier: every reconstruction with representative pairs + every pair with extrapol1/2; thorough: "
+        "full product); nozzle at rest for an abstract section law. Integrators: R(Q*)=0 => step(Q*)=Q* follows from the "
+        "normal forms of C05 (explicit) and the linear systems of C06 (implicit).",
+   note=TB + "; flux consistency from C02, mesh contract from C20, power laws as lemma instances; 2-D operator pending the "
+        "2-D machinery.",
+   ref="§6 C03")
+CHECKS["C05"] = dict(
+   technique="contract-based deductive verification: step() of every explicit integrator class executed symbolically against "
+             "the abstract contract of modeldisc.rhs; Butcher tableau / stage times EXTRACTED from the executed code and "
+             "validated by z3 identities; order conditions etc. in exact rational arithmetic",
+   text="Proof for every right-hand side (abstract operator), all fields, dt, symbolic ncell, two equations: each explicit "
+        "integrator found in the source is an explicit Runge-Kutta step (z3 identities Q' = Q + dt sum b_s R_s, stages, time "
+        "+dt); all rooted-tree order conditions up to the nominal order, sum b = 1, the time presented to each stage equals "
+        "t + c_s dt, stability polynomials of the low-storage schemes (Bogey-Bailly / Taylor), Shu-Osher witness (convex "
+        "combination of Euler steps of size <= dt) for rk2_heun and rk3ssp.",
+   note=TB + "; the published Bogey-Bailly coefficients are recorded in props/C05.py (tolerance 1e-9, see comment there).",
+   ref="§6 C05")
+CHECKS["C06"] = dict(
+   technique="contract-based deductive verification: calc_jacobian / solve_implicit / implicit, trapezoidal, gear step "
+             "executed symbolically against an abstract linear operator; calc_jacobian used through its contract inside the "
+             "steps; linalg.solve by assumed contract; row identities by exact rational algebra (sympy) + z3; "
+             "BOUNDED in the system size",
+   text="For system sizes ncell x neq in {1x1,2x1,3x1,2x2,3x2} and ALL operator entries, fields, dt: calc_jacobian returns "
+        "the operator (layout row=cell*neq+eq); implicit solves (I-dtA)Q'=Q, trapezoidal/cranknicolson (I-dtA/2)Q'=(I+dtA/2)Q, "
+        "gear starts with one Crank-Nicolson step of size dt and then satisfies 3Q2-4Q1+Q0=2dt A Q2 with the history "
+        "invariant; time advances by dt. Unbounded: the finite-difference perturbation is proportional to mean|q| with a "
+        "relative size inside the rounding/truncation window [4.4e-13,1e-3] and never zero; no-growth of 1/(1-z) and "
+        "(1+z/2)/(1-z/2) for Re z<=0; orders 1/2/2.",
+   note=TB + "; numpy.linalg.solve assumed (M x = b, nonsingular); the linear-system identities are a bounded stand-in in the "
+        "mesh size (loops of calc_jacobian unrolled), stated in the evidence under bounded_standins; 'Jacobian equals the "
+        "derivative' for nonlinear operators is a limit statement: decided as difference-quotient form + step window.",
+   ref="§6 C06")
+
 NA = {
  "C04": "convergence of a solve at the design order under mesh refinement is a limit statement over a family of meshes "
         "(and an empirical one for Riemann problems; the reference solutions wrap the external aerokit): no pre/postcondition "
